@@ -725,6 +725,8 @@ for _n, _d in (
     ("from_utf8", "str::from_utf8 (pure)"),
     ("Cursor::<T>::position", "current position (pure)"),
     ("Cursor::<T>::get_ref", "underlying buffer (pure)"),
+    ("HeaderValue::from_static", "header value with the given static text (pure)"),
+    ("HeaderName::from_static", "header name with the given static text (pure)"),
     ("<impl Index<I> for [T]>::index", "sub-slice / element by index (pure; bounds are E3's obligation)"),
 ):
     AXIOMS[_n] = _pure(_n)
@@ -883,3 +885,31 @@ def ax_slice_first(call):
             out.append((st, mk_variant("Some", leaf_tree(("term", ("app", "first", call.arg_key(call.args[0]))))) if v else mk_variant("None")))
         return call.ret_many(out)
     return call.ret_app("<impl [T]>::first")
+
+
+@axiom("<impl [T]>::contains", doc="false on an empty slice; otherwise an uninterpreted membership atom")
+def ax_slice_contains(call):
+    n = _slice_len(call, call.args[0])
+    if n == ("int", 0):
+        return call.ret_leaf(("int", 0))
+    if n[0] == "term":
+        v = call.interp.decide(call.st, ("eq", ("int", 0), n))
+        if v is True:
+            return call.ret_leaf(("int", 0))
+    return call.ret_app("<impl [T]>::contains")
+
+
+def _status_range(lo, hi):
+    def ax(call):
+        l = tree_leaf(call.deref(call.args[0]))
+        I = call.interp
+        ge = I.cmp_leaves(call.st, "Ge", l, ("int", lo), "u16")
+        le = I.cmp_leaves(call.st, "Le", l, ("int", hi), "u16")
+        return _ret_and(call, ge, le)
+    return ax
+
+
+for _n, _lo, _hi in (("StatusCode::is_informational", 100, 199), ("StatusCode::is_success", 200, 299),
+                     ("StatusCode::is_client_error", 400, 499), ("StatusCode::is_server_error", 500, 599)):
+    AXIOMS[_n] = _status_range(_lo, _hi)
+    AXIOM_DOC[_n] = "%d <= code <= %d" % (_lo, _hi)
